@@ -5,7 +5,7 @@ from .common import *   # noqa: F401,F403
 from . import instr_gen as ig
 from .C11 import r_qres
 
-LEAF = ['Leaf_special', 'Leaf_note', 'Leaf_build', 'Leaf_sustain', 'Leaf_dispatch', 'Leaf_tracks', 'Leaf_chart', 'Leaf_fromfile']      # translated functions this property's model relies on (Tie/<name>.v)
+LEAF = ['Leaf_special', 'Leaf_note', 'Leaf_build', 'Leaf_sustain', 'Leaf_dispatch', 'Leaf_tracks', 'Leaf_chart', 'Leaf_fromfile', 'Leaf_meta']      # translated functions this property's model relies on (Tie/<name>.v)
 RULE = ("one well-formed instrument section per case over a 1-5 segment tempo map: all lane subsets x length patterns {all zero, all equal, partly zero, all different, "
         "only orange non-zero} x forced/tap flag lines (with zero AND non-zero lengths) in every position x open notes with flags before/after; sustains crossing tempo changes; "
         "tracks whose longest sustain is not on the last note; judged: sustain value, longest_sustain, end_tick, end_timestamp = the implementation's own query at end_tick >= start, "
